@@ -237,8 +237,10 @@ def run_apalache(module: str, args: Sequence[str], tag: str, timeout: int = 600)
     work = subdir(f'apalache-{tag}')
     _stage_specs(work)
     t0 = time.time()
+    env = dict(os.environ)
+    env['TMPDIR'] = str(work)      # the apalache-mc wrapper makes a SANYxxxx directory with mktemp -t and never removes it: keep it in the scratch directory
     p = subprocess.run(['apalache-mc', 'check', *args, f'--out-dir={work}/out', f'{module}.tla'], cwd=work, capture_output=True, text=True,
-                       timeout=timeout)
+                       timeout=timeout, env=env)
     m = re.search(r'The outcome is: (\w+)', p.stdout)
     out = {'outcome': m.group(1) if m else f'rc={p.returncode}', 'wall': round(time.time() - t0, 1), 'args': list(args), 'tail': p.stdout[-1500:]}
     shutil.rmtree(work / 'out', ignore_errors=True)
